@@ -24,7 +24,8 @@ use vh_core::{Args, Guarded, Trace, Value, guarded, json, read_ndjson};
 
 /// The untrusted provider: answers the n-th fetch with the n-th entry of `serve` (0 = not found,
 /// i = the i-th certificate of the universe), whatever hash was asked for. When the script is
-/// exhausted it answers honestly from the universe by hash (first match), or not found.
+/// exhausted it answers honestly (the certificate of the universe that really owns the hash, or
+/// not found).
 struct Provider {
     certs: Vec<Certificate>,
     serve: Mutex<VecDeque<usize>>,
@@ -38,7 +39,13 @@ impl CertificateRetriever for Provider {
         let next = self.serve.lock().unwrap().pop_front();
         let idx = match next {
             Some(i) => i,
-            None if self.honest_after => self.certs.iter().position(|c| c.hash == hash).map(|p| p + 1).unwrap_or(0),
+            // honest: the certificate that really owns this hash
+            None if self.honest_after => self
+                .certs
+                .iter()
+                .position(|c| c.hash == hash && c.try_compute_hash().map(|h| h == c.hash).unwrap_or(false))
+                .map(|p| p + 1)
+                .unwrap_or(0),
             None => 0,
         };
         self.log.lock().unwrap().push((hash.to_string(), idx));
@@ -58,7 +65,9 @@ fn run_case(kit: &Kit, rt: &tokio::runtime::Runtime, case: &Value, n: usize, tra
     let provider = Arc::new(Provider {
         certs: certs.clone(),
         serve: Mutex::new(serve.iter().copied().collect()),
-        honest_after: case["honest_after"].as_bool().unwrap_or(false),
+        // beyond the scripted answers the provider is honest, so that a verifier that wrongly
+        // passes the step the model rejects can go on to the genesis certificate and accept
+        honest_after: case["honest_after"].as_bool().unwrap_or(true),
         log: Mutex::new(vec![]),
     });
     let verifier = MithrilCertificateVerifier::new(
